@@ -519,6 +519,79 @@ func replayGen(rep *Report, r *Result) *ReplayOutcome {
 		}
 	}()
 `, ms.Name, oo.GoName, oo.Members[0].Wrapper.Obj().Name())
+	case o.ctx.tag["method"] == "Clear" && strings.Contains(o.Name, "ensures[effect]"):
+		// D6-style witness: select one member, clear another member of the same oneof
+		var oo *OneofSchema
+		for _, x := range ms.Oneofs {
+			if len(x.Members) >= 2 && strings.Contains(o.Name, "."+x.Members[0].ProtoName+"/") || len(x.Members) >= 2 && func() bool {
+				for _, m := range x.Members {
+					if strings.Contains(o.Name, "."+m.ProtoName+"/") {
+						return true
+					}
+				}
+				return false
+			}() {
+				oo = x
+			}
+		}
+		if oo == nil {
+			return nil
+		}
+		body = fmt.Sprintf(`
+	m := (&%s{}).ProtoReflect()
+	od := m.Descriptor().Oneofs().ByName(%q)
+	if od == nil || od.Fields().Len() < 2 {
+		t.Skip("no oneof with two members")
+	}
+	for i := 0; i < od.Fields().Len(); i++ {
+		for j := 0; j < od.Fields().Len(); j++ {
+			if i == j {
+				continue
+			}
+			keep, other := od.Fields().Get(i), od.Fields().Get(j)
+			if keep.Message() != nil {
+				m.Mutable(keep)
+			} else {
+				m.Set(keep, m.NewField(keep))
+			}
+			m.Clear(other)
+			if m.WhichOneof(od) == nil || m.WhichOneof(od).FullName() != keep.FullName() {
+				violated(t, "Clear(%%s) while %%s was set: oneof is now %%v", other.FullName(), keep.FullName(), m.WhichOneof(od))
+				return
+			}
+		}
+	}
+`, ms.Name, oo.Name)
+	case strings.Contains(o.Name, "/nilrecv/"):
+		method := o.ctx.tag["method"]
+		call := map[string]string{
+			"Has":        "_ = m.Has(fd)",
+			"Get":        "_ = m.Get(fd)",
+			"Range":      "m.Range(func(protoreflect.FieldDescriptor, protoreflect.Value) bool { return true })",
+			"GetUnknown": "_ = m.GetUnknown()",
+			"WhichOneof": "if ods := (&" + ms.Name + "{}).ProtoReflect().Descriptor().Oneofs(); ods.Len() > 0 { _ = m.WhichOneof(ods.Get(0)) }",
+		}[method]
+		if call == "" {
+			return nil
+		}
+		body = fmt.Sprintf(`
+	fds := (&%s{}).ProtoReflect().Descriptor().Fields()
+	if fds.Len() == 0 {
+		t.Skip("message without fields")
+	}
+	fd := fds.Get(0)
+	_ = fd
+	var nilMsg *%s
+	m := nilMsg.ProtoReflect()
+	func() {
+		defer func() {
+			if r := recover(); r != nil {
+				violated(t, "%s on a nil message panicked: %%v", r)
+			}
+		}()
+		%s
+	}()
+`, ms.Name, ms.Name, method, call)
 	case o.Kind == "wf":
 		// map entry without a value / list element: <unit>/<Field>/wf[…]
 		parts := strings.Split(o.Name, "/")
@@ -552,6 +625,7 @@ import (
 
 var _ = protowire.AppendTag
 var _ protoreflect.Kind
+var _ = proto.Size
 
 func violated(t *testing.T, f string, a ...interface{}) {
 	fmt.Println("GOVC-REPLAY: VIOLATED " + fmt.Sprintf(f, a...))
